@@ -313,7 +313,28 @@ pub struct C18Case {
   /// time; the latest one must be woken)
   #[serde(default)]
   pub peek_first: bool,
+  /// 1 = a clone of the future is made and dropped at once, 2 = the clone is polled once
+  /// (with a waker of its own) and then dropped; the original must still resolve
+  #[serde(default)]
+  pub clone_drop: u8,
   pub sched: SchedJson,
+}
+
+/// `x.clone()` if the type is Clone, None otherwise (so that the harness still builds should
+/// the future lose its Clone impl): inherent method beats the trait method
+struct MaybeClone<'a, T>(&'a T);
+impl<'a, T: Clone> MaybeClone<'a, T> {
+  fn get(&self) -> Option<T> {
+    Some(self.0.clone())
+  }
+}
+trait NoClone<T> {
+  fn get(&self) -> Option<T>;
+}
+impl<'a, T> NoClone<T> for MaybeClone<'a, T> {
+  fn get(&self) -> Option<T> {
+    None
+  }
 }
 
 struct WakeFlag {
@@ -337,11 +358,11 @@ struct C18Log {
 }
 
 fn c18_strategy(_ctx: &Ctx) -> BoxedStrategy<C18Case> {
-  (0usize..=5, any::<bool>(), 0u8..=2, prop::bool::weighted(0.3), sched_strategy())
-    .prop_map(|(len, err, via, peek_first, sched)| {
+  (0usize..=5, any::<bool>(), 0u8..=2, prop::bool::weighted(0.3), prop_oneof![4 => Just(0u8), 1 => Just(1u8), 1 => Just(2u8)], sched_strategy())
+    .prop_map(|(len, err, via, peek_first, clone_drop, sched)| {
       let mut script: Vec<Ev> = (0..len).map(|i| Ev::N(100 + i as i64)).collect();
       script.push(if err { Ev::E(7) } else { Ev::C });
-      C18Case { script, via, peek_first, sched }
+      C18Case { script, via, peek_first, clone_drop, sched }
     })
     .boxed()
 }
@@ -396,6 +417,21 @@ fn c18_check(_ctx: &Ctx, c: &C18Case) -> Report {
     let waker = std::task::Waker::from(flag.clone());
     let mut cx = std::task::Context::from_waker(&waker);
     let mut early = None;
+    if c2.clone_drop > 0 {
+      #[allow(unused_imports)]
+      use NoClone as _;
+      if let Some(mut other_handle) = MaybeClone(&fut).get() {
+        if c2.clone_drop == 2 {
+          let other = Arc::new(WakeFlag { m: arx_rt::stdx::sync::Mutex::new(false), cv: arx_rt::stdx::sync::Condvar::new() });
+          let w3 = std::task::Waker::from(other);
+          let mut cx3 = std::task::Context::from_waker(&w3);
+          let _ = std::future::Future::poll(std::pin::Pin::new(&mut other_handle), &mut cx3);
+          // the original is polled (again) below with its own waker, as a future polled with a
+          // new waker must be
+        }
+        drop(other_handle);
+      }
+    }
     if c2.peek_first {
       // somebody else looks at the future once, with a waker of their own
       let other = Arc::new(WakeFlag { m: arx_rt::stdx::sync::Mutex::new(false), cv: arx_rt::stdx::sync::Condvar::new() });
@@ -438,9 +474,12 @@ fn c18_check(_ctx: &Ctx, c: &C18Case) -> Report {
   });
   let l = lk(&log).clone();
   let mut rep = Report::ok();
-  let show = || format!("script={} via={} peek_first={} sched={:?} => {:?} outcome={}", show_script(&c.script), c.via, c.peek_first, c.sched, l, out.describe());
+  let show = || format!("script={} via={} peek_first={} clone_drop={} sched={:?} => {:?} outcome={}", show_script(&c.script), c.via, c.peek_first, c.clone_drop, c.sched, l, out.describe());
   rep.sample = Some(show());
   rep.classes.push(format!("via:{}", c.via));
+  if c.clone_drop > 0 {
+    rep.classes.push(format!("clone-dropped:{}", c.clone_drop));
+  }
   rep.nontrivial = l.polls_pending >= 1;
   let fail = |m: String| Some(format!("{} | {}", m, show()));
   let expected: Result<Vec<P>, u32> = match c.script.last() {
